@@ -83,6 +83,12 @@ def run(ctx, rep):
     rep.rule('R-C04-6', 'blockcmp compares the zero padding beyond pos_size', 1)
 
     memhash_pairing(P, rep, 'R-C04-1p')
+    # coverage of the percentage plans: the derived limits select exactly the quota (a stripe the plan covers is never skipped)
+    from .C15 import quota_rule
+    cands = [f_ for f_ in P.variants('block_is_enabled') if (f_.file or '').endswith('scrub.c')]
+    if len(cands) != 1:
+        raise AnalysisBroken('scrub block_is_enabled not found')
+    quota_rule(P, rep, P.fn('state_scrub'), cands[0], 5 if ctx.tier == 'quick' else 7, rid='R-C04-6q')
     # ---- scrub
     L = StripeLoop(P, 'state_scrub_process')
     f = L.f
